@@ -32,11 +32,19 @@ def _try(f):
 
 def gen_c01(y0, y1):
     from pymeeus.Epoch import Epoch
+    shared = Epoch(2000, 1, 1.5)
+    shared.get_date()
     for (y, m, d, n) in calwalk.days(y0, y1):
         ev = {"k": "c01", "y": y, "m": m, "d": d}
         e = None
         try:
-            e = Epoch(y, m, d)
+            if n % 3 == 1:
+                # "build an Epoch from (y, m, d)" also means: give an existing Epoch that date with set(); every third
+                # day re-targets one long-lived object whose date was read before
+                shared.set(y, m, d)
+                e = shared
+            else:
+                e = Epoch(y, m, d)
             ev["j2n"] = _i2(e.jde())
         except Exception:
             ev["j2n"] = -2
@@ -82,9 +90,15 @@ def gen_c01(y0, y1):
 def gen_c16(y0, y1):
     from pymeeus.Epoch import Epoch
     bad = fx(-99999)
+    shared = Epoch(2000, 1, 1.5)
     for (y, m, d, n) in calwalk.days(y0, y1):
         ev = {"k": "c16", "y": y, "m": m, "d": d, "n": n}
-        e0 = Epoch(y, m, d)
+        if n % 3 == 0:
+            # one long-lived Epoch walked through the days with set(): its views must follow it
+            shared.set(y, m, d)
+            e0 = shared
+        else:
+            e0 = Epoch(y, m, d)
         e12 = Epoch(y, m, d, 12)
         e23 = Epoch(y, m, d, 23, 59, 59)
         for key, e in (("w0", e0), ("w12", e12), ("w23", e23)):
